@@ -420,6 +420,15 @@ theorem propagateDefs_boolOk {ptr : Nat} (defs : List (Term Def)) {σ : State} {
 
 /-! ### post-fixpoint tables -/
 
+theorem allWSB_sound {m : TableMap} (h : allWSB m = true) : AllWS m := by
+  intro q hq t hqt
+  have := List.all_eq_true.mp h q hq
+  rw [hqt] at this
+  intro e he
+  have he' := List.all_eq_true.mp this e he
+  simp only [Bool.and_eq_true, beq_iff_eq, C12.wellSizedExpr, decide_eq_true_eq] at he'
+  exact he'
+
 /-- entrywise inclusion, as a proposition -/
 theorem subsetOf_valid {σ : State} {a b : Table} (h : a.subsetOf b = true) (hv : TableValid σ b) : TableValid σ a := by
   intro q hq
